@@ -257,3 +257,19 @@ CHECKS["C13"] = {
     ],
     "mandatory_labels": {"all": ["listing/both-bounds-n>=3", "logs/replica-batch>=2", "two-writers/concurrent-pair"]},
 }
+
+CHECKS["C03"] = {
+    "level": "exploration",
+    "level_text": ("the complete (event type x forgery) matrix enumerated for generated key sets and payloads against openGroupEnvelope, with forgeries presented before and after "
+                   "the genuine event was seen, plus forged entries appended to a real metadata store followed by an honest sentinel (no delivery to subscribers, state unchanged)"),
+    "level_note": "envelopes are built by an independent re-implementation of the framing; cryptographic strength of Ed25519/secretbox is trusted",
+    "technique": "property-based testing (rapid) over an enumerated mutation catalogue: 'forgery => rejected' and 'honest => accepted and decoded equal'",
+    "rule": ("case = one (event type, forgery) pair for one key set, or one forged log entry; non-trivial = the forgery decrypts and parses, so only the signature check can stop it; "
+             "distinct = (type, forgery label)"),
+    "assumptions": ["every event type of the protocol enum has a decoder (checked)"],
+    "units": [
+        {"pkg": ".", "run": "^TestVerif_C03_", Q: {"timeout": 900}, T: {"timeout": 3400, "shards": 12}},
+    ],
+    "mandatory_labels": {"all": ["forgery/stopped-by-signature-check-only", "forgery/replayed-signature", "store/account", "store/multimember",
+                                 "types/EventTypeGroupMemberDeviceAdded", "types/EventTypeMultiMemberGroupInitialMemberAnnounced", "types/EventTypeAccountVerifiedCredentialRegistered"]},
+}
